@@ -217,6 +217,7 @@ class Executor:
         self.max_samples = 40
         self.sample_every = 1
         self.stop_after_findings = 0
+        self._cstr_cache = {}
         self.hang_is_finding = False
         self.solver = z3.Solver()
         self.solver.set('timeout', 30000)
@@ -246,6 +247,8 @@ class Executor:
         for name, (ty, init, const) in self.m.globals.items():
             if init is not None:
                 self._store_const(st, self.gaddr[name], ty, init)
+            if const:
+                st.objs[self.gaddr[name] >> SH].ro = True
 
     def _store_const(self, st, addr, ty, c):
         t = ty.res()
@@ -1186,7 +1189,17 @@ class Executor:
             elif op == 'store':
                 self.store(st, val(fr, ins.b), ins.ty, val(fr, ins.a))
             elif op == 'getelementptr':
-                regs[ins.dst] = self.gep(ins.ty, val(fr, ins.a), [(t, val(fr, v)) for t, v in ins.b])
+                k = ins.c
+                if k is None:
+                    if all(v[0] == 'c' for t, v in ins.b):
+                        k = ins.c = sgn(self.gep(ins.ty, 0, [(t, v[1]) for t, v in ins.b]), 64)
+                    else:
+                        k = ins.c = False
+                if k is not False:
+                    base = val(fr, ins.a)
+                    regs[ins.dst] = (base + k) & 0xffffffffffffffff if type(base) is int else base + k
+                else:
+                    regs[ins.dst] = self.gep(ins.ty, val(fr, ins.a), [(t, val(fr, v)) for t, v in ins.b])
             elif op == 'icmp':
                 t = ins.ty.res()
                 regs[ins.dst] = self.icmp(ins.x, 64 if t.k != 'int' else t.bits, val(fr, ins.a), val(fr, ins.b))
@@ -1348,6 +1361,16 @@ class Executor:
         return None
 
     def cstring(self, st, addr):
+        r = self._cstr_cache.get(addr)
+        if r is not None:
+            return r
+        r = self._cstring(st, addr)
+        o = st.objs.get(addr >> SH)
+        if o is not None and o.ro:
+            self._cstr_cache[addr] = r
+        return r
+
+    def _cstring(self, st, addr):
         out = bytearray()
         while True:
             b = self.load_c(st, addr + len(out), 1, 'i')
@@ -1585,15 +1608,15 @@ def x_sym_assume(ex, st, fr, ins, args):
     if is_sym(c):
         c = z3.simplify(boolv(c))
         if z3.is_false(c):
-            raise PathEnd()
+            raise PathEnd('pruned')
         if not z3.is_true(c):
             st.pc.append(c)
             if st.model is not None and not z3.is_true(st.model.eval(c, model_completion=True)):
                 st.model = ex.check(st)
                 if st.model is None:
-                    raise PathEnd()
+                    raise PathEnd('pruned')
     elif not c:
-        raise PathEnd()
+        raise PathEnd('pruned')
     return None
 
 
